@@ -168,7 +168,7 @@ fn spawn_calls(seed: u64, calls: &[usize]) -> Result<Vec<String>, String> {
 // ---- stress
 
 fn stress_values(seed: u64) -> Vec<(Ty, vmodel::Val)> {
-    let all = crate::props::derived::batch().all();
+    let all: Vec<_> = crate::props::derived::batch().all().into_iter().filter(|d| crate::props::derived::compiled_ok(d)).collect();
     all.iter()
         .map(|d| {
             let ty = Ty::Adt(d.clone());
